@@ -85,7 +85,7 @@ def run(tier):
         stats["events"] += len(trace)
         tp = os.path.join(d, "trace.ndjson")
         write_ndjson(tp, trace)
-        t = tlc("rt/Trace_ResourceOwn", "rt/Trace_ResourceOwn", workers=1, wd=wd, env={"TRACE": tp}, dfs=True, xmx="8g", timeout=3000, extra=["-continue"])
+        t = tlc("rt/Trace_ResourceOwn", "rt/Trace_ResourceOwn", workers=1, wd=wd, env={"TRACE": tp}, dfs=True, xmx="8g", timeout=3000)
         states += t.distinct
         seen = set()
         for b in t.tagged.get("BREACH", []):
@@ -116,7 +116,7 @@ def selftest():
     tr = [{"ev": "history", "k": 0}, {"ev": "r.new", "h": 11, "via": "constructor"}, {"ev": "r.drop", "h": 11}, {"ev": "r.drop", "h": 11}, {"ev": "history-end", "k": 0}]
     tp = os.path.join(wd, "t.ndjson")
     write_ndjson(tp, tr)
-    t = tlc("rt/Trace_ResourceOwn", "rt/Trace_ResourceOwn", workers=1, wd=wd, env={"TRACE": tp}, dfs=True, extra=["-continue"])
+    t = tlc("rt/Trace_ResourceOwn", "rt/Trace_ResourceOwn", workers=1, wd=wd, env={"TRACE": tp}, dfs=True)
     if not t.tagged.get("BREACH"):
         log("selftest C07: a double drop was accepted")
         return 2
